@@ -25,7 +25,8 @@
 (* meaning for the parser, wherever it occurs (raw tag and IV octets may   *)
 (* look like NL).                                                          *)
 (*                                                                         *)
-(* One operator per public call, all pure functions of a world record W,   *)
+(* One operator per public call, all pure functions of a world record W    *)
+(* (the configuration is read from the current state, w.cfg),              *)
 (* so that they can be chained by generators (AioGen), used as actions     *)
 (* (MC_Aio) and re-evaluated against recorded logs (AioTrace):             *)
 (*   PutMsg      one frame appended by Send                                *)
@@ -36,16 +37,23 @@
 (***************************************************************************)
 EXTENDS Integers, Sequences, FiniteSets, TLC
 
-CONSTANTS N,        \* parties 0..N-1
-          Auth,     \* aio_is_authenticated
-          Enc,      \* aio_is_encrypted
-          Chunked,  \* aio_is_chunked
-          Variant,  \* "select" | "nonblock"  (the polling variant has no chunked mode: flag ignored)
-          MACLEN,   \* tag length when authenticated (32 in the library, 2 in scaled model checking)
-          BLK,      \* IV length when encrypted (16 / 2)
-          BUFSZ,    \* size of the reassembly buffer per link
-          Delim,    \* the value that closes an array in chunked mode (4242424242)
+CONSTANTS Delim,    \* the value that closes an array in chunked mode (4242424242)
           NoVal     \* "no value" of the value type in use
+
+VARIABLE w          \* the world (record, see WInit); w.cfg is the configuration of the objects, fixed between resets
+vars == <<w>>
+
+\* configuration of the library objects (constructor arguments and sizes)
+MkCfg(n, variant, auth, enc, chunked, maclen, blk, bufsz) ==
+  [n |-> n, variant |-> variant, auth |-> auth, enc |-> enc, chunked |-> chunked, maclen |-> maclen, blk |-> blk, bufsz |-> bufsz]
+N       == w.cfg.n         \* parties 0..N-1
+Auth    == w.cfg.auth      \* aio_is_authenticated
+Enc     == w.cfg.enc       \* aio_is_encrypted
+Chunked == w.cfg.chunked   \* aio_is_chunked
+Variant == w.cfg.variant   \* "select" | "nonblock"  (the polling variant has no chunked mode: flag ignored)
+MACLEN  == w.cfg.maclen    \* tag length when authenticated (32 in the library, 2 in scaled model checking)
+BLK     == w.cfg.blk       \* IV length when encrypted (16 / 2)
+BUFSZ   == w.cfg.bufsz     \* size of the reassembly buffer per link
 
 Party  == 0..(N - 1)
 NL     == 10
@@ -82,18 +90,21 @@ RxLinkInit == [buf |-> <<>>,       \* buf_in[0..buf_ptr)
                nDec |-> 0,         \* lines fed to the stream cipher so far
                desync |-> FALSE]   \* stream cipher out of step for good
 
-Links(x) == [a \in Party |-> [b \in Party |-> x]]
-W0 == [tx     |-> Links(<<>>),     \* tx[a][b]: frames sent, [v, iv, line, tag]; mac_sqn_out = Len + 1
-       wire   |-> Links(<<>>),     \* wire[a][b]: octets written by a, still held by the transport
-       sock   |-> Links(<<>>),     \* sock[a][b]: octets handed over, not yet read by b
-       lk     |-> Links(RxLinkInit), \* lk[b][a]: b's reassembly state for the stream from a
-       cur    |-> [b \in Party |-> 0],   \* aio_schedule_current
-       curb   |-> [b \in Party |-> 0],   \* aio_schedule_buffer
-       q      |-> Links(<<>>),     \* q[b][a]: buf_mpz, values received for array assembly
-       nfault |-> Links(0),        \* rewrites of wire[a][b] so far
-       deliv  |-> Links(<<>>),     \* ghost deliv[b][a]: values returned by the single-message Receive
-       arrs   |-> Links(<<>>),     \* ghost arrs[b][a]: arrays returned by the array Receive
-       sarrs  |-> Links(<<>>)]     \* ghost sarrs[a][b]: arrays accepted for sending
+WInit(c) ==
+  LET P == 0..(c.n - 1)
+      Links(x) == [a \in P |-> [b \in P |-> x]]
+  IN [cfg    |-> c,
+      tx     |-> Links(<<>>),     \* tx[a][b]: frames sent, [v, iv, line, tag]; mac_sqn_out = Len + 1
+      wire   |-> Links(<<>>),     \* wire[a][b]: octets written by a, still held by the transport
+      sock   |-> Links(<<>>),     \* sock[a][b]: octets handed over, not yet read by b
+      lk     |-> Links(RxLinkInit), \* lk[b][a]: b's reassembly state for the stream from a
+      cur    |-> [b \in P |-> 0],   \* aio_schedule_current
+      curb   |-> [b \in P |-> 0],   \* aio_schedule_buffer
+      q      |-> Links(<<>>),     \* q[b][a]: buf_mpz, values received for array assembly
+      nfault |-> Links(0),        \* rewrites of wire[a][b] so far
+      deliv  |-> Links(<<>>),     \* ghost deliv[b][a]: values returned by the single-message Receive
+      arrs   |-> Links(<<>>),     \* ghost arrs[b][a]: arrays returned by the array Receive
+      sarrs  |-> Links(<<>>)]     \* ghost sarrs[a][b]: arrays accepted for sending
 
 SentV(W, a, b) == [k \in 1..Len(W.tx[a][b]) |-> W.tx[a][b][k].v]
 
@@ -240,7 +251,4 @@ AuthSafe(W) == Auth => \A a \in Party, b \in Party :
 \* arrays arrive whole and in order
 ArraysWhole(W) == \A a \in Party, b \in Party :
   W.nfault[a][b] = 0 => IsPrefix(W.arrs[b][a], W.sarrs[a][b])
-
-VARIABLE w
-vars == <<w>>
 =============================================================================
